@@ -27,6 +27,10 @@ MONITOR  = a clause of the property is false on the implementation's own observa
   c01/l2_twin                               contract views differ from a twin node that saw only the best chain
   c01/l2_best_chain                         … differ from the confirmations/resolutions on the best chain (harness-derived diffs)
   c01/l2_update_never_fails/<cause>         the contracts part of the chain update failed or panicked on a real history
+  c06/acts/submitted/<kind>                 a selected contract got no pool submission although no listed skip applies
+  c06/acts/only_selected/<kind>             a set was submitted for a contract the store did not select
+  c06/acts/broadcast/<kind>                 an accepted set was not handed to the syncer (or other transactions were)
+  c06/acts/broadcast_refused/<kind>         a set the pool refused was handed to the syncer
   c06/process_actions_never_fails/<part>/<cause>  ProcessActions (after the committed update) failed or panicked
   c06/ends_successful[/<class>]             a contract whose data the host holds and whose formation was never
                                             disconnected did not end `successful` (class: no_funds, pool_refused,
@@ -170,6 +174,9 @@ structure DState where
   candOwn : Nat := 0
   candAsFound : Nat := 0    -- lines explained by the as-found metrics transcription
   candRepaired : Nat := 0
+  strictF1 : Bool := false  -- `--strict-formation1`
+  f1RefusedBroadcast : Nat := 0  -- v1 formation sets the pool refused and the host broadcast nevertheless
+  actLoops : Nat := 0       -- ProcessActions loops (index × kind) checked against `actsOf`
   twinCmp : Nat := 0        -- contracts compared with the twin node
   bestChainCmp : Nat := 0   -- contract views compared with the fold over the best chain
   dataEnded : Nat := 0      -- data contracts (formation never disconnected) past expiration
@@ -281,6 +288,49 @@ def bestChainViolations (stack : List Blk) (vs : List CView) : List String :=
     if okForm && okRes then none
     else some s!"c{v.i}:host={showCV v},bestchain_formed={showK f},bestchain_resolved={showK r}"
 
+/-! ### the acting side of ProcessActions (`ar=` tokens: height:kind:sel:sub:skip:bc) -/
+
+def parseTagged (s : String) : List (Nat × String) :=
+  (splitDash s "+").filterMap fun t =>
+    match t.splitOn "." with
+    | [c, k] => c.toNat?.map fun n => (n, k)
+    | [c] => c.toNat?.map fun n => (n, "")
+    | _ => none
+
+def parseAr (s : String) : Option (Nat × String × ActObs × List (Nat × String)) :=
+  match s.splitOn ":" with
+  | [h, kind, sel, sub, skip, bc] => do
+      let h ← h.toNat?
+      let subs := parseTagged sub
+      let bcs := parseTagged bc
+      let skips := parseTagged skip
+      pure (h, kind, { sel := (parseTagged sel).map (·.1), skips := skips.map (·.1),
+                       subOk := (subs.filter (·.2 == "ok")).map (·.1), subRej := (subs.filter (·.2 != "ok")).map (·.1),
+                       bcSame := (bcs.filter (·.2 == "same")).map (·.1), bcDiff := (bcs.filter (·.2 != "same")).map (·.1) }, skips)
+  | _ => none
+
+/-- the monitors of one loop of ProcessActions: instances of `actsOf` (Props/C06Acts.lean) -/
+def actMonitors (strictF1 : Bool) (l : Line) : List Verdict × Nat × Nat :=
+  let toks := (l.obs.filter (·.1 == "ar")).map (·.2)
+  -- the v1 formation rebroadcast hands refused sets to the syncer by construction (`ActKind.broadcastsRefused`): counted,
+  -- reported as a monitor only with `--strict-formation1`
+  let f1 := (toks.filter fun t => match parseAr t with
+    | some (_, kind, o, _) => kind == "formation1" && !noRefusedBroadcastOk o
+    | none => false).length
+  let vs : List Verdict := toks.flatMap fun t =>
+    match parseAr t with
+    | none => [Verdict.badline s!"ar token {t}"]
+    | some (h, kind, o, _) =>
+      (if submittedOk o then [] else [Verdict.monitor s!"c06/acts/submitted/{kind}" s!"height={h},{t}"]) ++
+      (if onlySelectedOk o then [] else [Verdict.monitor s!"c06/acts/only_selected/{kind}" s!"height={h},{t}"]) ++
+      (if broadcastOk o then [] else [Verdict.monitor s!"c06/acts/broadcast/{kind}" s!"height={h},{t}"]) ++
+      (if noRefusedBroadcastOk o || (kind == "formation1" && !strictF1) then [] else [Verdict.monitor s!"c06/acts/broadcast_refused/{kind}" s!"height={h},{t}"])
+  -- one verdict per monitor name and line
+  let vs := vs.foldl (fun (acc : List Verdict) v => match v with
+    | .monitor n _ => if acc.any (fun w => match w with | .monitor m _ => m == n | _ => false) then acc else acc ++ [v]
+    | _ => acc ++ [v]) []
+  (vs, toks.length, f1)
+
 /-! ### the step function -/
 
 def resCause (res : String) : String :=
@@ -300,7 +350,7 @@ def step (d : DState) (l : Line) : DState × List Verdict :=
        freshCmp := d.freshCmp, annSet := d.annSet, annCleared := d.annCleared, accOk := d.accOk,
        maxHeight := d.maxHeight, spentAtMat := d.spentAtMat, bucketRegress := d.bucketRegress,
        candParent := d.candParent, candOwn := d.candOwn, candAsFound := d.candAsFound, candRepaired := d.candRepaired,
-       twinCmp := d.twinCmp, bestChainCmp := d.bestChainCmp, dataEnded := d.dataEnded, dataSuccessful := d.dataSuccessful }, [])
+       actLoops := d.actLoops, strictF1 := d.strictF1, f1RefusedBroadcast := d.f1RefusedBroadcast, twinCmp := d.twinCmp, bestChainCmp := d.bestChainCmp, dataEnded := d.dataEnded, dataSuccessful := d.dataSuccessful }, [])
   else if d.dead then (d, [])
   else
     match getStr l.obs "res" with
@@ -499,7 +549,8 @@ def step (d : DState) (l : Line) : DState × List Verdict :=
         let cviews := (getCViews l.obs "cst").getD []
         let bcv := bestChainViolations stack cviews
         let m15 : List Verdict := if bcv.isEmpty then [] else [.monitor "c01/l2_best_chain" (",".intercalate bcv)]
-        let mons := m15 ++ m1 ++ m2 ++ m3 ++ m4 ++ m5 ++ annMons ++ m8 ++ m9 ++ m10 ++ m11 ++ m12 ++ m13 ++ m14
+        let (m16, nAr, nF1) := actMonitors d.strictF1 l
+        let mons := m16 ++ m15 ++ m1 ++ m2 ++ m3 ++ m4 ++ m5 ++ annMons ++ m8 ++ m9 ++ m10 ++ m11 ++ m12 ++ m13 ++ m14
         -- ---- correspondence: which transcribed variants explain the host
         let explains (c : Cand) : Bool := match candView c with
           | .ok (tx, ev, b, i) => sortU tx == outxS && sortP (ev.map fun e => (e.id, e.blk)) == oevS && b == mbal && i == mimm
@@ -541,6 +592,8 @@ def step (d : DState) (l : Line) : DState × List Verdict :=
           dead := !vs.isEmpty && !onlyAnn,
           annDead := d.annDead || !annMons.isEmpty,
           bestChainCmp := d1.bestChainCmp + cviews.length,
+          actLoops := d1.actLoops + nAr,
+          f1RefusedBroadcast := d1.f1RefusedBroadcast + nF1,
           annSet := d1.annSet + (if annBlocksApplied.isEmpty then 0 else 1),
           annCleared := d1.annCleared + (if d.prevAidx.isSome && aidx.isNone then 1 else 0),
           accOk := d1.accOk + (acc.length - badAcc.length),
@@ -552,6 +605,6 @@ def step (d : DState) (l : Line) : DState × List Verdict :=
       | _, _, _, _, _, _, _, _, _, _, _, _, _, _, _, _ => ({ d1 with dead := true }, [.badline "observation fields"])
 
 def stats (d : DState) : String :=
-  s!"hists={d.hists} applies={d.applies} reverts={d.reverts} reorg_lines={d.reorgLines} deepest_reorg={d.deepest} max_height={d.maxHeight} fresh_compared={d.freshCmp} ann_set={d.annSet} ann_cleared={d.annCleared} pool_accepts={d.accOk} spend_at_maturity={d.spentAtMat} bucket_regress={d.bucketRegress} expl_ann_parent={d.candParent} expl_ann_own={d.candOwn} expl_metrics_as_found={d.candAsFound} expl_metrics_repaired={d.candRepaired} twin_contracts={d.twinCmp} best_chain_views={d.bestChainCmp} data_contracts_ended={d.dataEnded} data_contracts_successful={d.dataSuccessful}"
+  s!"hists={d.hists} applies={d.applies} reverts={d.reverts} reorg_lines={d.reorgLines} deepest_reorg={d.deepest} max_height={d.maxHeight} fresh_compared={d.freshCmp} ann_set={d.annSet} ann_cleared={d.annCleared} pool_accepts={d.accOk} spend_at_maturity={d.spentAtMat} bucket_regress={d.bucketRegress} expl_ann_parent={d.candParent} expl_ann_own={d.candOwn} expl_metrics_as_found={d.candAsFound} expl_metrics_repaired={d.candRepaired} act_loops={d.actLoops} formation1_refused_but_broadcast={d.f1RefusedBroadcast} twin_contracts={d.twinCmp} best_chain_views={d.bestChainCmp} data_contracts_ended={d.dataEnded} data_contracts_successful={d.dataSuccessful}"
 
 end Hostd.Drive.Wallet
